@@ -217,6 +217,8 @@ def cnv_DrawNameRef(attribute, arg, element):
 
 # Must accept list of Style objects
 def cnv_NCNames(attribute, arg, element):
+    if (sys.version_info[0]==3 and isinstance(arg, str)) or (sys.version_info[0]==2 and type(arg) in types.StringTypes):
+        return arg
     return ' '.join(arg)
 
 def cnv_nonNegativeInteger(attribute, arg, element):
